@@ -9,7 +9,9 @@
 (*         "underscore" (the name _ ) at top level; "method", "selfless"     *)
 (*         (a method that never uses self), "static", "classmeth",           *)
 (*         "classattr" in the body of a top-level class; "initclass" (a      *)
-(*         class whose __init__ / __repr__ are what has to survive)          *)
+(*         class whose __init__ / __repr__ are what has to survive);         *)
+(*         "condinitclass" (the same, defined under an if statement rather   *)
+(*         than directly in the module body)                                 *)
 (* style : naming style of the identifier ("snake", "camel", "upper",        *)
 (*         "private", "dunderish")                                          *)
 (* used  : whether the module itself uses the name                          *)
@@ -40,7 +42,7 @@ Add == /\ Len(defs) < MaxDefs
 Next == Add
 Spec == Init /\ [][Next]_vars
 
-InClass(d) == d.kind \in {"method", "selfless", "static", "classmeth", "classattr", "initclass"}
+InClass(d) == d.kind \in {"method", "selfless", "static", "classmeth", "classattr", "initclass", "condinitclass"}
 
 \* C07: with the safe option every definition is part of the surface
 MustSurviveSafe == {i \in 1..Len(defs) : TRUE}
